@@ -24,7 +24,8 @@ and compares it with the model under that configuration.  Core Lean only.
 namespace XalanModel.C19
 
 structure Cfg where
-  clearGuard : Bool    -- clear()/empty()/size() return without touching begin() when m_listHead == 0
+  clearGuard : Bool    -- begin()/end() do not allocate: on a list with m_listHead == 0 they return a null iterator
+                       -- pair, so clear()/empty()/size()/for_each(begin(), end()) make no request
   nextInit : Bool      -- constructNode writes `newNode->next = 0` right after allocate(1)
 deriving Repr, DecidableEq
 
@@ -87,7 +88,9 @@ def pushFront (cfg : Cfg) (x : Int) := constructNode cfg true x
 
 /-- `pop_front()` = `erase(begin())` → `freeNode`: destroy the value, push the block on the free
 list; erasing `end()` (empty list) is outside the contract -/
-def popFront (s : XList) (l : Ledger) : Out × XList × Ledger :=
+def popFront (cfg : Cfg) (s : XList) (l : Ledger) : Out × XList × Ledger :=
+  -- with non-allocating begin()/end() a never-used list yields a null iterator: erase(null) is outside the contract
+  if cfg.clearGuard && s.head.isNone then (.ub, s, l) else
   match getListHead s l with
   | (.ok, s1, l1) =>
     (match s1.nodes with
@@ -96,7 +99,8 @@ def popFront (s : XList) (l : Ledger) : Out × XList × Ledger :=
   | r => r
 
 /-- `pop_back()` = `erase(--end())` -/
-def popBack (s : XList) (l : Ledger) : Out × XList × Ledger :=
+def popBack (cfg : Cfg) (s : XList) (l : Ledger) : Out × XList × Ledger :=
+  if cfg.clearGuard && s.head.isNone then (.ub, s, l) else
   match getListHead s l with
   | (.ok, s1, l1) =>
     (match s1.nodes.reverse with
@@ -139,8 +143,8 @@ deriving Repr, DecidableEq
 def step (cfg : Cfg) (s : XList) (l : Ledger) : Op → Out × XList × Ledger
   | .pushBack x => pushBack cfg x s l
   | .pushFront x => pushFront cfg x s l
-  | .popFront => popFront s l
-  | .popBack => popBack s l
+  | .popFront => popFront cfg s l
+  | .popBack => popBack cfg s l
   | .clear => clear cfg s l
   | .empty => isEmpty cfg s l
 
